@@ -260,7 +260,8 @@ def payload(rng, cap, tiny_ok=False):
         return {'$bytes': b.hex()}
     if t < 0.8:
         return {'$bytearray': b.hex()}
-    return ''.join(chr(32 + (x % 95)) for x in b)
+    t = ''.join(chr(32 + (x % 95)) for x in b)
+    return {'$text': t} if rng.random() < 0.4 else t     # built at run time (a new object) or a literal
 
 
 def simple_file(rng, spec=None, mrl=None, n_lf=1, nofmt=None, frames=None, hc=False, max_width=12, dtypes=None,
